@@ -214,7 +214,7 @@ func runTCPProp(t *testing.T, id string, hostile bool, nontrivial func(*Stats) b
 		}
 	}
 	if r.Replay != "" {
-		if raw, _ := os.ReadFile(r.Replay); strings.Contains(string(raw), "\"deny_client\"") {
+		if raw, _ := os.ReadFile(r.Replay); strings.Contains(string(raw), "\"deny_client\"") || !strings.Contains(string(raw), "\"steps\"") {
 			fmt.Println("REPLAY-NOT-MINE: not a TCP-world script")
 
 			return
